@@ -4,7 +4,7 @@
    vnone = the value Python calls None.  A dictionary is the list of its items in insertion order;
    "well-formed" (pairwise different keys) is the hypothesis NoDup (map fst d) where it is needed. *)
 From Coq Require Import List ZArith NArith Bool Permutation.
-From Orso Require Import Model.C02 Proofs.C02 Proofs.C02_Session Proofs.C02_Source.
+From Orso Require Import Model.C02 Proofs.C02 Proofs.C02_Session Proofs.C02_Source Proofs.C02_Producer.
 Import ListNotations.
 
 (* Row(dict) has exactly one cell per field, duplicates included. *)
@@ -350,6 +350,33 @@ Theorem C02_frame_from_iterable_after_history :
 Proof. exact source_frame_after_history. Qed.
 Print Assumptions C02_frame_from_iterable_after_history.
 
+(* ---------- lazily produced records ----------
+   The producer runs between the constructor's reads and keeps the record objects it has handed over
+   (annotating the previous record, refilling one buffer dictionary, deleting a key).  Reading lazily -
+   columns copied from the first record when it is read, each row built when its record is read - gives
+   exactly the frame of the finished list of what was handed over, each record as it was when it was
+   yielded; hence columns of the first, one row per yielded record, every row as wide as the columns;
+   and whatever the producer does after its last yield is irrelevant. *)
+Theorem C02_lazy_agrees_with_finished_list :
+  forall (K V : Type) (eqK : forall a b : K, {a = b} + {a <> b}) (vnone : V)
+         (st : list (list (K * V))) (acts : list (pact K V)),
+  frame_from_producer eqK vnone st acts = frame_of_dicts eqK vnone (delivered eqK st acts) /\
+  (let f := frame_from_producer eqK vnone st acts in
+   fst f = match delivered eqK st acts with [] => [] | d :: _ => map fst d end /\
+   length (snd f) = length (delivered eqK st acts) /\
+   Forall (fun r => length r = length (fst f)) (snd f)) /\
+  (forall tail : list (pact K V),
+     (forall a, In a tail -> forall r, a <> PYield r) ->
+     frame_from_producer eqK vnone st (acts ++ tail) = frame_from_producer eqK vnone st acts).
+Proof.
+  intros K V eqK vnone st acts. split; [|split].
+  - exact (producer_agrees K V eqK vnone acts st).
+  - exact (producer_shape K V eqK vnone acts st).
+  - intros tail H. rewrite !(producer_agrees K V eqK vnone).
+    now rewrite (delivered_app_no_yield K V eqK acts tail st H).
+Qed.
+Print Assumptions C02_lazy_agrees_with_finished_list.
+
 (* ---------- non-vacuity: the hypotheses are satisfiable by non-trivial values ---------- *)
 Local Open Scope Z_scope.
 Definition ex_a : key := [97%N].
@@ -415,3 +442,15 @@ Example C02_nonvacuous_source :
     [SrcItem (Some [(ex_a, 1); (ex_b, 2)]);
      SrcFrameOut [ex_b] [[3]; [0]]; SrcFrameOut [] []; SrcItems []].
 Proof. split; reflexivity. Qed.
+
+(* producers: the previous record is annotated after it was handed over; one buffer refilled; a key deleted *)
+Example C02_nonvacuous_producer :
+  frame_from_producer key_dec 0 []
+    [PNew [(ex_a, 1); (ex_b, 2)]; PYield 0%nat; PNew [(ex_a, 3); (ex_b, 4)]; PSet 0%nat ex_c 9; PYield 1%nat] =
+    ([ex_a; ex_b], [[1; 2]; [3; 4]]) /\
+  frame_from_producer key_dec 0 []
+    [PNew [(ex_a, 1)]; PYield 0%nat; PSet 0%nat ex_a 2; PSet 0%nat ex_b 7; PYield 0%nat] = ([ex_a], [[1]; [2]]) /\
+  frame_from_producer key_dec 0 []
+    [PNew [(ex_a, 1); (ex_b, 2)]; PYield 0%nat; PDel 0%nat ex_b; PNew [(ex_b, 4)]; PYield 1%nat; PYield 0%nat] =
+    ([ex_a; ex_b], [[1; 2]; [0; 4]; [1; 0]]).
+Proof. repeat split; reflexivity. Qed.
